@@ -77,7 +77,7 @@ ISOTOPE_LEVEL = ('neutron', 'neutron_activation')
 
 FORMULA_STRINGS = ('H2O', 'CaCO3+6H2O', 'D2O', 'O[18]H2', 'Fe{2+}Fe{3+}2O{2-}4', 'NaCl@2.16',
                    '(CH3)3CO[18]H', '5 g NaCl // 50 mL H2O@1', 'H[1]{+}2O{2-}',
-                   '3 wt% NaCl@2.16 // H2O@1', 'Fe')
+                   '3 wt% NaCl@2.16 // H2O@1', 'Fe', 'aa:AGK', 'dna:ACGT')
 
 NFIELDS = ('b_c', 'b_c_i', 'b_c_complex', 'bp', 'bp_i', 'bm', 'bm_i', 'coherent', 'incoherent', 'total',
            'absorption', 'abundance', 'is_energy_dependent', 'nsf_table', '_number_density')
